@@ -797,6 +797,22 @@ impl Area for StateArea {
             s(&["new", "addtcpf 1 4 0", "addtcpf 1 4 1", "markreset", "diff"]),
             // same fingerprint, other content
             vec!["new".into(), format!("addcert 7 {}", cw(0, &[])), "markreset".into(), format!("addcert 7 {}", cw(0, &[1])), "diff".into()],
+            // every flood knob, one at a time, at its smallest accepted value and just below it
+            {
+                let mut v = vec!["new".to_string(), hl.clone(), hl0.clone()];
+                for i in 0..NKNOBS {
+                    for below in [false, true] {
+                        if below && knob_min(i) == 0 {
+                            continue;
+                        }
+                        let val = if below { knob_min(i) - 1 } else { knob_min(i) };
+                        let ks: Vec<String> = (0..NKNOBS).map(|j| if j == i { val.to_string() } else { "-".into() }).collect();
+                        v.push(format!("updhttpsl 7 - - - - - - - - - - - {} - 0", ks.join(",")));
+                        v.push(format!("updhttpl 2 - - - - - - - - {} - 0", ks.join(",")));
+                    }
+                }
+                v
+            },
             // listener change keeps activation
             vec!["new".into(), hl.clone(), "mark".into(), format!("updhttpsl 7 - - - 5 - - - - - - - {KN} - 0"), "diff".into(), "diffself".into(), "replay".into()],
         ]
@@ -804,6 +820,24 @@ impl Area for StateArea {
     fn gen(&self, rng: &mut Rng, thorough: bool) -> Vec<String> {
         let mut sh = Self::new_shadow(rng);
         let mut ops = vec!["new".to_string()];
+        // most cases start with a few listeners, so that patches / activations / diffs have targets
+        if rng.chance(3, 4) {
+            for t in 0..4usize {
+                if rng.chance(1, 2) {
+                    let a = g_addr(rng, &sh);
+                    sh.listeners[t].insert(a % 16);
+                    ops.push(match t {
+                        0 | 1 => {
+                            let l = g_httpl(rng, &sh, t == 1);
+                            let w: Vec<&str> = l.split(' ').collect();
+                            format!("{} {} {}", w[0], a, w[2..].join(" "))
+                        }
+                        2 => format!("addtcpl {a} - {} 60 30 3 {}", rng.below(2), rng.below(2)),
+                        _ => format!("addudpl {a} - 30 30 1500 {} {}", rng.below(3), rng.below(2)),
+                    });
+                }
+            }
+        }
         let maxlen = if thorough { 45 } else { 30 };
         match self.prop.as_str() {
             "C07" => {
